@@ -492,8 +492,9 @@ Fixpoint seq_run (k : kind) (q : seqst) (ops : list sop) : seqst * list sres :=
   | o :: r => let (q1, x) := seq_step k q o in let (q2, xs) := seq_run k q1 r in (q2, x :: xs)
   end.
 
-Fixpoint upto (n : nat) : list N :=
-  match n with O => [] | S m => upto m ++ [N.of_nat m] end.
+Fixpoint upto_from (n : nat) (start : N) : list N :=
+  match n with O => [] | S m => start :: upto_from m (start + 1) end.
+Definition upto (n : nat) : list N := upto_from n 0.
 
 Definition seq_init (k : kind) (nslots nanchors : nat) : seqst :=
   mkQ (init (cap_of k) (upto nslots) (upto nanchors)) (fun _ => None) (N.of_nat nanchors).
